@@ -152,6 +152,33 @@ def add_in_form(store, which, j, obj, form, rng):
         return "refused:" + type(e).__name__
 
 
+def add_group(mem, fs, items, form, rng):
+    """one add() call carrying several objects; returns (memory result, filesystem result)"""
+    import stix2
+    out = []
+    for which, store in (("mem", mem), ("fs", fs)):
+        try:
+            with warnings.catch_warnings():
+                warnings.simplefilter("ignore")
+                members = [(obj if obj is not None and rng.random() < 0.5 else json.loads(json.dumps(j))) for j, obj, kind in items]
+                if form == "multi-list":
+                    store.add(members)
+                else:
+                    v21 = any("spec_version" in j or j["type"] in ("domain-name", "ipv4-addr", "file", "url") for j, _, _ in items)
+                    if form == "multi-bundle-object":
+                        B = stix2.v21.Bundle if v21 else stix2.v20.Bundle
+                        store.add(B(members, allow_custom=True))
+                    else:
+                        b = {"type": "bundle", "id": "bundle--" + V.uuid_text(rng, 4), "objects": [json.loads(json.dumps(j)) for j, _, _ in items]}
+                        if not v21:
+                            b["spec_version"] = "2.0"
+                        store.add(b)
+            out.append("added")
+        except Exception as e:
+            out.append("refused:" + type(e).__name__)
+    return out
+
+
 def same_content(a, b):
     return compare.generic_equal(a, b)
 
@@ -250,7 +277,37 @@ def wl_history(ctx, rng, i):
         model = ListModel()
         forms_used, kinds = {}, {}
         history = []
-        for k in order:
+        pos = 0
+        while pos < len(order):
+            # several objects in ONE call (a list or a bundle with 2-4 members, mixed ids and versions)
+            def is_new(k):
+                j = pop[k][0]
+                return not any(x["id"] == j["id"] and version_instant(x) == version_instant(j) for x in model.items)
+            width = rng.choice([2, 2, 3, 4])
+            if rng.random() < 0.35 and pos + 1 < len(order) and all(is_new(k) for k in order[pos:pos + width]):
+                group = order[pos:pos + width]
+                pos += len(group)
+                # identical objects twice in one call would be the undefined "same id+modified" situation for a bundle: keep distinct
+                group = list(dict.fromkeys(group))
+                gform = rng.choice(["multi-list", "multi-bundle-dict", "multi-bundle-object"])
+                firsts = [model.add(pop[k][0]) for k in group]
+                rs = add_group(mem, fs, [pop[k] for k in group], gform, rng)
+                for k, first in zip(group, firsts):
+                    j, obj, kind = pop[k]
+                    history.append({"id": j["id"], "modified": j.get("modified"), "form": gform, "memory": rs[0], "filesystem": rs[1], "first_time": first})
+                    forms_used.setdefault(j["id"], []).append(gform)
+                    kinds[j["id"]] = kind
+                    ctx.count("adds")
+                ctx.see("input forms", gform)
+                ctx.ev()
+                if all(firsts):
+                    for nm, r in (("memory", rs[0]), ("filesystem", rs[1])):
+                        if r != "added":
+                            ctx.violation("first-add-refused:" + nm, "%s store refused a first-time multi-object addition (%s) via %s" % (nm, r, gform),
+                                          {"store": nm, "form": gform, "result": r, "history": history})
+                continue
+            k = order[pos]
+            pos += 1
             j, obj, kind = pop[k]
             form = rng.choice(["object", "dict", "list", "bundle-object", "bundle-dict", "json-text"])
             first = model.add(j)
@@ -309,7 +366,7 @@ def floors(m, tier):
         out.append("fewer than 50 histories completed")
     if c.get("save_load_cycles", 0) < 20:
         out.append("fewer than 20 save/load cycles")
-    for f in ("object", "dict", "list", "bundle-object", "bundle-dict", "json-text"):
+    for f in ("object", "dict", "list", "bundle-object", "bundle-dict", "json-text", "multi-list", "multi-bundle-dict", "multi-bundle-object"):
         if f not in m["seen"].get("input forms", set()):
             out.append("input form %s never used" % f)
     for k in ("sdo21", "sdo20", "custom", "dict", "dict-spellings", "marking", "sco21"):
